@@ -305,6 +305,15 @@ func main() {
 	}
 	r.sectionSynthetic()
 	r.sectionWitness()
+
+	// The documented way to register MessagePack extensions late is to re-create the global
+	// handle with InitMsgpackHandle first. A re-created handle must serialize and deserialize
+	// plain WAMP messages exactly like the initial one: run a part of the sections again.
+	serialize.InitMsgpackHandle()
+	sum.Count("phase.after_InitMsgpackHandle")
+	r.sectionRoundtrip(minInt(*n, 1500))
+	r.wireValues(minInt(*n, 1500))
+	r.wireBytes(minInt(*nbytes, 10000))
 	r.sum.KnownFindings = dedupeFindings(r.sum.KnownFindings)
 
 	sum.DistinctNontrivial = len(r.distinct)
